@@ -2,7 +2,8 @@
 Driver of engine `greedy` (harness/src/greedy.rs): the greedy meta-block builder `BrotliBuildMetaBlockGreedy`.
 
   greedy build <mode> <num_contexts> <static_context_map csv|-> <prev_byte> <prev_byte2> <mask> <pos> <ringhex> <cmds> <exc>
-      → `ok <lit> <cmd> <dist> cmap=<size>:<digest> lh=<size>:<digest> ch=<size>:<digest> dh=<size>:<digest>` | `panic`
+      → `ok <lit> <cmd> <dist> cmap=<size>:<digest> lh=<size>:<digest> ch=<size>:<digest> dh=<size>:<digest> opt=<lit>:<cmd>:<dist>` | `panic`
+      (`opt` = the three histogram digests behind `BrotliOptimizeHistograms(64, mb)`, model `optimizeHistograms`, or `opt=panic`)
       the model `buildGreedy` with the oracle instantiated by `Float32` (`floatX = f32`): `BitsEntropy` recomputed here
       (`shannon_entropy` with `FastLog2u16` = the 65536-entry table `logs_16`, `FastLog2` = `logs_8` below 256 and
       `log2f` above), `+`, `-`, `<`, `>` of `Float32`.  split = num_types/num_blocks/types/lengths; digests are FNV
@@ -79,7 +80,10 @@ def handle : List String → String
         s!"ok {showSplit mb.lit} {showSplit mb.cmd} {showSplit mb.dist} cmap={mb.litCmapSize}:{digestNats mb.litCmap} " ++
         s!"lh={mb.litHistosSize}:{digestHistos mb.litHistos mb.litHistosSize} " ++
         s!"ch={mb.cmdHistosSize}:{digestHistos mb.cmdHistos mb.cmdHistosSize} " ++
-        s!"dh={mb.distHistosSize}:{digestHistos mb.distHistos mb.distHistosSize}"
+        s!"dh={mb.distHistosSize}:{digestHistos mb.distHistos mb.distHistosSize} " ++
+        (match optimizeHistograms 64 mb with
+         | .ok o => s!"opt={digestHistos o.litHistos o.litHistosSize}:{digestHistos o.cmdHistos o.cmdHistosSize}:{digestHistos o.distHistos o.distHistosSize}"
+         | _ => "opt=panic")
       | .panic => "panic"
       | .fuel => "fuel"
   | ["log2", exc] =>
